@@ -331,6 +331,8 @@ def step (w : W) (o : Op) : W × String :=
       -- cosmos math.Int is 256 bits wide: `slashed.Add(amount)` in handleVoteInfo / HandleEvidences panics when the
       -- cumulative slashed total of a token no longer fits (known finding F12); the hook then fails as a whole
       if lk.slashed.any (fun e => !Locking.fits256 e.2) then (w, "=> panic ;; int-overflow")
+      -- likewise `validator.Reward.Add(share)` / `GasReward.Add(share)` in DistributeReward (known finding F13)
+      else if lk.validators.any (fun e => !Locking.fits256 e.2.reward || !Locking.fits256 e.2.gasReward) then (w, "=> panic ;; int-overflow")
       else if o.str "obs" == "1" then
         -- who is punished by this hook: validators whose status becomes downgrade / tombstoned
         let pun := lk.validators.filterMap (fun (a, v) =>
@@ -377,12 +379,14 @@ def step (w : W) (o : Op) : W × String :=
       match Bitcoin.depositOutputV0 bc pk evm with
       | none => (w, "=> none")
       | some sc =>
-        (w, s!"=> {hexD sc} same={boolStr (Bitcoin.verifyDepositScriptV0 bc pk evm sc)} otherkey={boolStr (Bitcoin.verifyDepositScriptV0 bc pk2 evm sc)} otherevm={boolStr (Bitcoin.verifyDepositScriptV0 bc pk evm2 sc)}")
+        let mutS := if (o.get? "mutpos").isSome then s!" mut={boolStr (Bitcoin.verifyDepositScriptV0 bc pk evm (sc.set (o.nat "mutpos") (UInt8.ofNat (o.nat "mutval"))))}" else ""
+        (w, s!"=> {hexD sc} same={boolStr (Bitcoin.verifyDepositScriptV0 bc pk evm sc)} otherkey={boolStr (Bitcoin.verifyDepositScriptV0 bc pk2 evm sc)} otherevm={boolStr (Bitcoin.verifyDepositScriptV0 bc pk evm2 sc)}{mutS}")
     else
       match Bitcoin.depositOutputsV1 bc pk magic evm with
       | none => (w, "=> none")
       | some (o0, o1) =>
-        (w, s!"=> {hexD o0}+{hexD o1} same={boolStr (Bitcoin.verifyDepositScriptV1 bc pk magic evm o0 o1)} otherkey={boolStr (Bitcoin.verifyDepositScriptV1 bc pk2 magic evm o0 o1)} otherevm={boolStr (Bitcoin.verifyDepositScriptV1 bc pk magic evm2 o0 o1)}")
+        let mutS := if (o.get? "mutpos").isSome then s!" mut={boolStr (Bitcoin.verifyDepositScriptV1 bc pk magic evm (o0.set (o.nat "mutpos") (UInt8.ofNat (o.nat "mutval"))) o1)}" else ""
+        (w, s!"=> {hexD o0}+{hexD o1} same={boolStr (Bitcoin.verifyDepositScriptV1 bc pk magic evm o0 o1)} otherkey={boolStr (Bitcoin.verifyDepositScriptV1 bc pk2 magic evm o0 o1)} otherevm={boolStr (Bitcoin.verifyDepositScriptV1 bc pk magic evm2 o0 o1)}{mutS}")
   | "merkle.verify" =>
     let r := Merkle.verify Sha256.dsha256 (o.bytes "txid") (o.bytes "root") (o.bytes "proof") (o.nat "index")
     (w, s!"=> {boolStr r}")
